@@ -31,5 +31,6 @@ def main (args : List String) : IO UInt32 := do
   match args with
   | ["hash"] => runDriver () (fun _ w => ((), hashStep w))
   | ["theta"] => runDriver (#[] : Theta.Objs) (Theta.stepLine thetaTunables)
+  | ["thetaL2"] => runDriver (#[] : Theta.L2D.Objs) (Theta.L2D.stepLine thetaTunables DSGen.theta_STRIDE_HASH_BITS)
   | ["tuple"] => runDriver ({} : Tuple.DState) (Tuple.stepLine thetaTunables)
   | _ => IO.eprintln "usage: dsmodel_theta hash|theta|tuple"; return 2
